@@ -12,6 +12,7 @@ def run(rep, tier, seed):
     gen_and_replay(rep, wd, exe, "Gen_C10.tla", "C10_d%d" % d, {"Depth": d}, {"Kinds": "WrapKinds"}, extra_inv=["SpecPure"])
     if tier == "thorough":
         asis_refuted(rep, wd, "Gen_C10.tla", "C10_asis", {"Depth": 1, "FixPool": "FALSE"}, {"Kinds": "WrapKinds"}, ("StartsClean",))
+    repo_suite_traces(rep, wd)
     rep.exhaustive = True
 
 def replay(path):
